@@ -54,7 +54,7 @@ class Ctx:
         return self._add(Ob(rule, instance, PASS, where, why, **kw))
 
     def _status_switch_ranges(self):
-        """Functions with a `switch` over a status value (type econf_err) that no constant decides: the branch edges of a switch carry no
+        """Functions with a `switch` over a status value (type econf_err), inside a loop, that no constant decides: the branch edges of a switch carry no
         case facts in the path engine (edge literals exist for two-way branches only), so a path verdict inside such a function -
         "a failure goes on", "success is reachable with ..." - cannot tell `case ECONF_NOFILE:` from `default:`."""
         if getattr(self, "_ssr", None) is None:
@@ -65,7 +65,7 @@ class Ctx:
                 try:
                     dead = getattr(f.cfg, "pruned", set()) if f.body is not None else set()
                     for x in (f.body.walk() if f.body is not None else []):
-                        if x.k == "SwitchStmt" and x.id not in dead:
+                        if x.k == "SwitchStmt" and x.id not in dead and any(a9.k in ("ForStmt", "WhileStmt", "DoStmt") for a9 in x.ancestors()):
                             c = x.child("cond")
                             c0 = c.strip() if c is not None else None
                             if c0 is not None and (c0.j.get("ct") == "enum econf_err" or (c0.j.get("from") or {}).get("ct") == "enum econf_err") and c0.const_value() is None:
